@@ -1,10 +1,26 @@
-from .common import LEAN_TB
+from .common import LEAN_TB, TRANSLATOR_TB
 
 LOOP_TB = LEAN_TB + [
     "Sonic/Model/Loop.lean is a hand-written model of the library's bookkeeping (poller interest bits and pending count, post queue, "
     "IO registry, IO.Dispatched, timer state machine, continuation frames); it is tied to the code by accepting the event traces of the "
     "real event loop (every event must be a transition of the model)",
     "the Linux kernel (epoll readiness, timerfd, eventfd, TCP/pipe semantics) is not modelled: every kernel decision is read off the trace",
+]
+
+# what C03 adds to the loop's trusted base through tie T for the poller bookkeeping
+POLLER_TB = [
+    TRANSLATOR_TB + "; for C03 it regenerates Sonic/Gen/Poller.lean from internal/poll_linux.go on every run: setRW, SetRead, "
+    "SetWrite, DelRead, DelWrite, Del, with PollerEvent (uint32) as BitVec 32 and `& |= ^= &^=` as `&&& ||| ^^^ &&&~~~`, "
+    "`events := &slot.Events` as an alias of the state field, atomic.AddInt64(&p.pending, k) as pending := pending + k "
+    "(64-bit wrap; atomicity itself is C05's subject), PollerReadEvent / PollerWriteEvent evaluated from the source's constant "
+    "declarations with syscall.EPOLLIN / EPOLLOUT taken from the syscall package of the Go toolchain that builds the translator",
+    "the epoll_ctl wrappers p.add / p.modify / p.del and createEvent are NOT translated: each call of a wrapper is recorded "
+    "(which wrapper, descriptor, mask) and answered by an oracle (nil or an error per call) over which every C03_poller_* theorem "
+    "quantifies; that the wrappers do not touch slot.Events or p.pending is read off their source by eye (they only call "
+    "syscall.Syscall6), and what the kernel does with the registration is part of the unmodelled kernel",
+    "Sonic/Go/Error.lean (Go `error` as nil / err code; translated code only compares errors with nil and passes them on)",
+    "the access table Sonic/Gen/PostAccess.lean (every write of poller.pending in internal/poll_linux.go, statement order of Post and "
+    "dispatch), extracted from the AST on every run",
 ]
 
 LOOP_RUNS = [{
@@ -42,11 +58,23 @@ PROP = {
         "Sonic.Props.C03.C03_pending_is_operations_in_flight",
         "Sonic.Props.C03.C03_owed_is_registered",
         "Sonic.Model.Loop.step_sim",
+        # tie T: the poller bookkeeping regenerated from internal/poll_linux.go (Props/C03Poller.lean)
+        "Sonic.Props.C03.C03_poller_flags_distinct",
+        "Sonic.Props.C03.C03_poller_set_refines_model",
+        "Sonic.Props.C03.C03_poller_set_failure_changes_nothing",
+        "Sonic.Props.C03.C03_poller_del_refines_model",
+        "Sonic.Props.C03.C03_poller_close_refines_model",
+        "Sonic.Props.C03.C03_poller_pending_delta",
+        "Sonic.Props.C03.C03_poller_bits_after",
+        "Sonic.Props.C03.C03_poller_run_balanced",
+        "Sonic.Props.C03.C03_poller_run_from_empty",
+        "Sonic.Props.C03.C03_poller_syscall_follows_mask",
+        "Sonic.Props.C03.C03_poller_pending_writers",
     ],
     "runs": LOOP_RUNS,
     "keys": ["pending-differs-from-ledger", "posted-differs-from-ledger", "poll-*", "ledger-pending-differs-from-operations-in-flight"],
     "rule": LOOP_RULE,
-    "trusted_base": LOOP_TB,
+    "trusted_base": LOOP_TB + POLLER_TB,
     "assumptions": [
         "epoll_ctl failures are provoked only through descriptors epoll refuses (regular files); a wait interrupted by a signal is "
         "provoked with tgkill(SIGUSR1) aimed at the loop thread while it is blocked in RunOneFor / RunOne / RunPending (and its mapping is "
@@ -68,11 +96,29 @@ PROP = {
                       "of operations / posted handlers the ledger owes — nothing counted that completed inline, was cancelled, was "
                       "closed, or failed to register (C03_pending_is_operations_in_flight, C03_ledger_accepts_model). The real loop's "
                       "traces must be accepted by the model, by that ledger and by the trace monitor (which also drives RunOne / "
-                      "RunPending and interrupts waits with signals).",
+                      "RunPending and interrupts waits with signals). "
+                      "Tie T for the poller bookkeeping: setRW / SetRead / SetWrite / DelRead / DelWrite / Del of "
+                      "internal/poll_linux.go are regenerated into Lean on every run (Sonic/Gen/Poller.lean: uint32 mask with the "
+                      "source's bit operations and flag constants, pending with 64-bit wrap, epoll_ctl outcomes as an oracle) and "
+                      "proved, for every slot state and every oracle, to do to (read interest, write interest, pending) exactly "
+                      "what the model's setRead / setWrite / armTimer / delRead / delWrite / closeObj / unsetPending do "
+                      "(C03_poller_*_refines_model; a failed registration changes neither mask nor pending); stated on the generated "
+                      "code alone: pending moves +1 exactly on a first successful registration of a direction, -1 exactly on removal "
+                      "of a set direction (C03_poller_pending_delta), pending minus the interests set in the slot's mask is constant "
+                      "over every call sequence (C03_poller_run_balanced, unbounded induction), one epoll_ctl per change with "
+                      "ADD/MOD/DEL chosen by the mask (C03_poller_syscall_follows_mask), and the only other writers of pending in "
+                      "the file are Post (+1 once) and dispatch (-1 per handler, after it ran) (C03_poller_pending_writers, access "
+                      "table). Still hand-written and tied by traces only: everything else of Model/Loop.lean - which helper a "
+                      "transition calls and when (io.go, file.go, async_adapter.go, listen_conn.go, packet.go, timer.go, "
+                      "internal/timer_linux.go, the dispatch loop of poller.Poll incl. its inline DelRead/DelWrite before a handler), "
+                      "the handler slots and the IO registry, IO.Dispatched, the post queue and its frames, the timer state machine; "
+                      "NewPoller's waker registration (SetRead followed by pending-1) is not translated.",
         "design_ref": "5/C03",
-        "level_note": "Trusted: Lean kernel; hand-written loop model tied to the code by trace acceptance; kernel behaviour read off the "
-                      "trace. Not proven: that RunPending / RunOne return (liveness needs the kernel to report readiness); the failing-"
-                      "registration paths are modelled for descriptors epoll refuses at EPOLL_CTL_ADD only.",
-        "technique": "Lean 4 invariant proof over a loop-model LTS + trace acceptance (model and ledger monitor) on the real event loop",
+        "level_note": "Trusted: Lean kernel; hand-written loop model tied to the code by trace acceptance, its poller helpers "
+                      "additionally by go2lean (translator + Go prelude trusted; epoll_ctl wrappers as an oracle); kernel behaviour "
+                      "read off the trace. Not proven: that RunPending / RunOne return (liveness needs the kernel to report readiness).",
+        "technique": "Lean 4 invariant and refinement proofs over a loop-model LTS (interest bits, and the API-level ledger) + Go->Lean "
+                     "translation of the poller bookkeeping with refinement lemmas to the model + trace acceptance (model, ledger and "
+                     "trace monitor) on the real event loop",
     },
 }
